@@ -11,7 +11,7 @@ from typing import Any
 
 import z3
 
-from .symexec import (BVW, Box, Builtin, BoundMethod, ClassVal, EnumerateVal, ExcVal, FuncVal, GenVal, ModuleVal,
+from .symexec import (BVW, Box, Builtin, BoundMethod, ClassVal, CountVal, Havocked, EnumerateVal, ExcVal, FuncVal, GenVal, ModuleVal,
                       Obj, PDict, PList, RangeVal, SDict, SSeq, SSet, SliceVal, UninterpFn, Unsupported, ZipVal,
                       is_sym_bool, is_sym_bv, is_sym_int, is_sym_real, is_sym_seq, is_sym_str, is_z3, to_z3,
                       _MISSING)
@@ -363,6 +363,9 @@ def compare(I, op, a, b, lineno=0):
 
 
 def identical(a, b):
+    if isinstance(a, Havocked) or isinstance(b, Havocked):
+        raise Unsupported(f'use of {a if isinstance(a, Havocked) else b}: a reference rebound in a loop, read before '
+                          f'it is assigned again')
     if a is b:
         return True
     if a is None or b is None:
@@ -1337,6 +1340,8 @@ def module_attr(I, mod: ModuleVal, name: str):
                     return m(I, _n, *a)
                 raise Unsupported(f'os.path.{_n} on symbolic strings')
             return Builtin('os.path.' + name, pathfn)
+    if mod.name == 'itertools' and name == 'count':
+        return Builtin('itertools.count', lambda start=0, step=1: CountVal(start))
     if mod.name == 'inspect' and name == 'isgenerator':
         return Builtin('inspect.isgenerator', lambda v: isinstance(v, GenVal))
     if mod.name == 'operator':
@@ -1429,6 +1434,15 @@ def make_builtins(I) -> dict:
     @reg('isinstance')
     def _isinstance(v, cls):
         return isinstance_model(I, v, cls)
+
+    @reg('issubclass')
+    def _issubclass(c, parents):
+        if not isinstance(c, ClassVal):
+            raise Unsupported('issubclass() of a non-class value')
+        ps = parents if isinstance(parents, tuple) else (parents,)
+        if not all(isinstance(p, (ClassVal, Builtin)) for p in ps):
+            raise Unsupported('issubclass() against a non-class value')
+        return any(I.is_subclass(c.name, p.name) for p in ps)
 
     @reg('int')
     def _int(x=0, base=10):
